@@ -13,7 +13,7 @@ structure Clean (r : RReq) : Prop where
   cls : calmCls r.cls = r.cls
 
 theorem calmReq_clean {r : RReq} (h : Clean r) : calmReq r = r := by
-  rcases r with ⟨peer, script, phase, out, cls, delivered, lock⟩
+  rcases r with ⟨peer, script, phase, out, cls, delivered, lock, released⟩
   have hs : script.map calmCall = script := by
     have : ∀ c ∈ script, calmCall c = c := fun c hc => calmCall_of_ne (h.script c hc)
     calc script.map calmCall = script.map id := List.map_congr_left this
@@ -23,7 +23,7 @@ theorem calmReq_clean {r : RReq} (h : Clean r) : calmReq r = r := by
   simp [calmReq, hs, ho, hc]
 
 theorem stepRunning_clean {cfg : Cfg} {r : RReq} (h : Clean r) : Clean (stepRunning cfg r).1 := by
-  rcases r with ⟨peer, script, phase, out, cls, delivered, lock⟩
+  rcases r with ⟨peer, script, phase, out, cls, delivered, lock, released⟩
   cases script with
   | nil => exact ⟨by simp [stepRunning, failWith], by simp [stepRunning, failWith, calmOut], by simp [stepRunning, failWith, calmCls]⟩
   | cons c rest =>
